@@ -1,7 +1,24 @@
-//! Sequential model of the rayon subset used by rusty-blockparser.
+//! Sequential model of rayon for the verification overlay of rusty-blockparser.
 //! Contract assumed (rayon's documented guarantee): an *indexed* parallel iterator collected
-//! into a Vec preserves the order of the source. Kani does not model threads, so this model is
-//! exactly why property C13 (schedule independence) is NOT claimed.
+//! into a Vec preserves the order of the source; `join(a, b)` returns `(a(), b())`. Kani does not
+//! model threads, so this model is exactly why property C13 (schedule independence) is NOT claimed.
+//! The subset is wider than what the pinned tree uses (`into_par_iter().map().collect()`), so that a
+//! changed tree reaching for `join`, `par_iter`, `filter`, `for_each`, `sum`, ... still builds.
+
+/// Sequential `rayon::join`.
+pub fn join<A, B, RA, RB>(oper_a: A, oper_b: B) -> (RA, RB)
+where
+    A: FnOnce() -> RA,
+    B: FnOnce() -> RB,
+{
+    let ra = oper_a();
+    let rb = oper_b();
+    (ra, rb)
+}
+pub fn current_num_threads() -> usize {
+    1
+}
+
 pub mod iter {
     pub struct Seq<I>(pub I);
     pub trait IntoParallelIterator {
@@ -14,6 +31,43 @@ pub mod iter {
             Seq(self.into_iter())
         }
     }
+    impl<'a, T> IntoParallelIterator for &'a Vec<T> {
+        type Iter = Seq<std::slice::Iter<'a, T>>;
+        fn into_par_iter(self) -> Self::Iter {
+            Seq(self.iter())
+        }
+    }
+    impl<'a, T> IntoParallelIterator for &'a [T] {
+        type Iter = Seq<std::slice::Iter<'a, T>>;
+        fn into_par_iter(self) -> Self::Iter {
+            Seq(self.iter())
+        }
+    }
+    impl<T> IntoParallelIterator for std::ops::Range<T>
+    where
+        std::ops::Range<T>: Iterator,
+    {
+        type Iter = Seq<std::ops::Range<T>>;
+        fn into_par_iter(self) -> Self::Iter {
+            Seq(self)
+        }
+    }
+    pub trait IntoParallelRefIterator<'a> {
+        type Iter;
+        fn par_iter(&'a self) -> Self::Iter;
+    }
+    impl<'a, T: 'a> IntoParallelRefIterator<'a> for Vec<T> {
+        type Iter = Seq<std::slice::Iter<'a, T>>;
+        fn par_iter(&'a self) -> Self::Iter {
+            Seq(self.iter())
+        }
+    }
+    impl<'a, T: 'a> IntoParallelRefIterator<'a> for [T] {
+        type Iter = Seq<std::slice::Iter<'a, T>>;
+        fn par_iter(&'a self) -> Self::Iter {
+            Seq(self.iter())
+        }
+    }
     pub trait ParallelIterator: Sized {
         type Item;
         type Inner: Iterator<Item = Self::Item>;
@@ -21,15 +75,57 @@ pub mod iter {
         fn map<R, F: FnMut(Self::Item) -> R>(self, f: F) -> Seq<std::iter::Map<Self::Inner, F>> {
             Seq(self.inner().map(f))
         }
+        fn filter<F: FnMut(&Self::Item) -> bool>(self, f: F) -> Seq<std::iter::Filter<Self::Inner, F>> {
+            Seq(self.inner().filter(f))
+        }
+        fn filter_map<R, F: FnMut(Self::Item) -> Option<R>>(self, f: F) -> Seq<std::iter::FilterMap<Self::Inner, F>> {
+            Seq(self.inner().filter_map(f))
+        }
+        fn enumerate(self) -> Seq<std::iter::Enumerate<Self::Inner>> {
+            Seq(self.inner().enumerate())
+        }
+        fn for_each<F: FnMut(Self::Item)>(self, f: F) {
+            self.inner().for_each(f)
+        }
         fn collect<C: FromIterator<Self::Item>>(self) -> C {
             self.inner().collect()
         }
+        fn sum<S: std::iter::Sum<Self::Item>>(self) -> S {
+            self.inner().sum()
+        }
+        fn count(self) -> usize {
+            self.inner().count()
+        }
+        fn all<F: FnMut(Self::Item) -> bool>(self, f: F) -> bool {
+            let mut it = self.inner();
+            it.all(f)
+        }
+        fn any<F: FnMut(Self::Item) -> bool>(self, f: F) -> bool {
+            let mut it = self.inner();
+            it.any(f)
+        }
     }
+    /// rayon's IndexedParallelIterator is a marker here: the sequential model is always ordered
+    pub trait IndexedParallelIterator: ParallelIterator {}
     impl<I: Iterator> ParallelIterator for Seq<I> {
         type Item = I::Item;
         type Inner = I;
         fn inner(self) -> I {
             self.0
+        }
+    }
+    impl<I: Iterator> IndexedParallelIterator for Seq<I> {}
+}
+pub mod prelude {
+    pub use crate::iter::{IndexedParallelIterator, IntoParallelIterator, IntoParallelRefIterator, ParallelIterator};
+}
+pub mod slice {
+    pub trait ParallelSlice<T> {
+        fn par_chunks(&self, n: usize) -> crate::iter::Seq<std::slice::Chunks<'_, T>>;
+    }
+    impl<T> ParallelSlice<T> for [T] {
+        fn par_chunks(&self, n: usize) -> crate::iter::Seq<std::slice::Chunks<'_, T>> {
+            crate::iter::Seq(self.chunks(n))
         }
     }
 }
